@@ -17,11 +17,11 @@ CLAIMS = {
         note="trusted: domain emptiness predicate, LFP oracle (self-tested in C03)"),
     "C03": dict(category="model_checking", design="4/C03",
         technique="explicit-state search over insertion histories of the real TableMethod (all sequences with repetition to a depth, all permutations of fixed universes); oracle: independent least fixed point after every insertion",
-        text="All sequences with repetition of rule keys from small alphabets up to a stated depth and all permutations of the test-suite universes are replayed on fresh TableMethod objects; after every insertion function/is_pumping/pumping_subuniverse are compared with an independent least-fixed-point computation and with the previous step (monotone).",
+        text="All sequences with repetition of rule keys from small alphabets up to a stated depth and all permutations of the test-suite universes are replayed on fresh TableMethod objects; after every insertion function/is_pumping/pumping_subuniverse are compared with an independent least-fixed-point computation and with the previous step (monotone). The bucket of every key is varied with the key (the function must not depend on it).",
         note="trusted: mc/oracles.py lfp_terms (gap lemma in DESIGN 3.3; self-tested against the repository's hand-typed expectations and uncapped Kleene iteration)"),
     "C04": dict(category="model_checking", design="4/C04",
         technique="deviation-bounded exploration of real searches with an observer on every ruledb.add; oracle: re-application of the strategy, exact emptiness, label bijection",
-        text="Every call of ruledb.add in every explored execution (packs with strategy/rule factories incl. foreign parents, symmetries, inferral chains, verification strategies; 3-4 rule databases) is checked: parent label carries the rule's class, child labels are the children's labels, the strategy belongs to the pack and reproduces the children, the stored key holds exactly the labels of the truly non-empty children, forest empty rules, labels<->classes bijection, cached emptiness.",
+        text="Every call of ruledb.add in every explored execution (packs with strategy/rule factories incl. foreign parents, symmetries, inferral chains, verification strategies; 3-4 rule databases) is checked: parent label carries the rule's class, child labels are the children's labels, the strategy belongs to the pack and reproduces the children, the stored key holds exactly the labels of the truly non-empty children, forest empty rules, labels<->classes bijection, cached emptiness. Also run over the parse-tree domain (products with a repeated factor, unit chains, reverse universes).",
         note="trusted: domain gate (set arithmetic) run on every rule met; exact emptiness predicate of the W-domain"),
     "C05": dict(category="model_checking", design="4/C05",
         technique="exhaustive enumeration of small rule dictionaries through every finder under all RNG decisions; explicit-state search over insertion sequences into real RuleDB objects; observed rule databases of real searches; oracles: independent GFP/LFP on SCC-collapsed rules, tree validity, brute-force minimum",
@@ -37,7 +37,7 @@ CLAIMS = {
         note="exhaustive over the stated finite families only"),
     "C08": dict(category="model_checking", design="4/C08",
         technique="exhaustive enumeration of the decisions of the random number generator (every draw value, every stub pick, every final choice) with exact Fraction arithmetic; end-to-end decision trees for small sizes",
-        text="Per rule form with a sampler (incl. products with merged statistics on non-atomic factors and a three-to-one rule with a custom constructor) and per (size, parameters): the exact distribution over parent objects is computed from every outcome of the generator and must be uniform; descending into an empty composition is a violation. End to end: the complete decision tree of spec.random_sample_object_of_size for sizes <= 3 (4) on corpus specifications; refusal exactly when no object exists.",
+        text="Per rule form with a sampler (incl. products with merged statistics on non-atomic factors and a three-to-one rule with a custom constructor) and per (size, parameters): the exact distribution over parent objects is computed from every outcome of the generator and must be uniform; descending into an empty composition is a violation. End to end: the complete decision tree of spec.random_sample_object_of_size for sizes <= 3 (4) on corpus specifications; refusal exactly when no object exists. (iii) for a sub-family, spec.sanity_check interrupted at every one of its requests to the random source, then the end-to-end tree on the same object.",
         note="trusted: stub sub-samplers uniform on the true child objects (induction hypothesis); factorisation by request pattern validated against the unreduced enumeration for counts <= 4"),
     "C09": dict(category="exploration", design="4/C09",
         technique="bounded-exhaustive enumeration of classes x strategies x derived rule forms (W and G families); oracle: plain enumeration bound to the sub-term providers",
@@ -45,7 +45,7 @@ CLAIMS = {
         note="trusted: domain brute force; every rule passes the domain gate first"),
     "C10": dict(category="exploration", design="4/C10",
         technique="same enumeration as C09 with logging sub-term providers, levels computed one at a time",
-        text="For every rule form of C09 and every level n <= N: each request to child i is for a size <= n - shifts()[i], requests for the rule's own terms are < n, and the forest key carries shifts().",
+        text="For every rule form of C09 and every level n <= N: each request to child i is for a size <= n - shifts()[i], requests for the rule's own terms are < n, and the forest key carries shifts(). Every form is evaluated a second time on fresh rule objects with providers that answer a size without objects by an explicit zero coefficient.",
         note="only the first computation of each level is observable (terms are cached)"),
     "C11": dict(category="model_checking", design="4/C11",
         technique="explicit-state enumeration of all insertion orders of small rule universes through the real TableMethod + ForestRuleExtractor; observed extractors of real forest searches; oracle: independent least fixed point",
@@ -57,15 +57,15 @@ CLAIMS = {
         note="each ordered pair judged independently"),
     "C13": dict(category="exploration", design="4/C13",
         technique="bounded-exhaustive enumeration of ordered pairs of searchers x both finder variants; oracles of C01/C02/C12 on the returned pair",
-        text="All ordered pairs of the quick start classes x packs {base, symmetry, inferral, two expansion sets,...} x {ParallelSpecFinder, EqPathParallelSpecFinder}, with fresh searchers and (for packs with alternative rules) with both universes fully expanded beforehand: find() returns None or two specifications, each valid for its own start class, isomorphic, with a valid bijection; no exception.",
+        text="All ordered pairs of the quick start classes x packs {base, symmetry, inferral, two expansion sets,...} x {ParallelSpecFinder, EqPathParallelSpecFinder}, with fresh searchers and (for packs with alternative rules) with both universes fully expanded beforehand: find() returns None or two specifications, each valid for its own start class, isomorphic, with a valid bijection; no exception. Plus ordered pairs of the regular languages with <= 2 DFA states (R-domain: first-letter / last-letter decompositions, alternative rules, shared classes).",
         note="RuleDB only (the finder supports nothing else)"),
     "C14": dict(category="model_checking", design="4/C14",
         technique="lock-step runs of the two rule databases on the same controlled schedule with an observer after every insertion",
-        text="Every configuration is run with RuleDB and RuleDBForgetStrategy under the same schedule; after every insertion: add stream, verified labels, has_specification, stored keys, contains() for stored and all small non-stored keys (bool, true exactly on stored keys), and the strategy handed back for every stored key of a non-empty class re-applied.",
+        text="Every configuration is run with RuleDB and RuleDBForgetStrategy under the same schedule; after every insertion: add stream, verified labels, has_specification, stored keys, contains() for stored and all small non-stored keys (bool, true exactly on stored keys), and the strategy handed back for every stored key of a non-empty class re-applied. Packs include the same one-child key produced by a one-way and then by a two-way strategy and factory rules that only the children's applications reproduce; which store holds a key is observed and a strategy handed back from the two-way store must be two-way.",
         note="queries with side effects (has_specification) are made identically on both; a second mode omits them"),
     "C15": dict(category="model_checking", design="4/C15",
         technique="explicit-state breadth-first search over operation histories of the real ClassDB (plain and compressed), closed state space; oracle: list-backed reference + invariants",
-        text="All histories of get_label/get_class/in/is_empty/set_empty over a pool with equal-but-distinct and empty classes and labels -2..6, deduplicated on the backing lists until no new state appears; every transition compared with the reference, invariants (dense labels, bijection, cached emptiness) in every state.",
+        text="All histories of get_label/get_class/in/is_empty/set_empty over a pool with equal-but-distinct and empty classes and labels -2..6, deduplicated on the backing lists until no new state appears; every transition compared with the reference, invariants (dense labels, bijection, cached emptiness) in every state. The alphabet includes an emptiness query whose computation is interrupted; a 123-class family with encodings of 7-70 bytes goes through fresh and shared databases (compact and JSON encodings).",
         note="set_empty is given the true emptiness (as the searcher does)"),
     "C16": dict(category="model_checking", design="4/C16",
         technique="explicit-state breadth-first search over histories of the real DefaultQueue with an obligation monitor (product state), do_level interleaved as a generator",
@@ -73,7 +73,7 @@ CLAIMS = {
         note="trusted: Monitor (self-tested)"),
     "C17": dict(category="fault_enumeration", design="4/C17",
         technique="crash-point enumeration: interruption of the real auto_search by the virtual clock at every work-packet count, pickle round trip, differential continuation",
-        text="For every configuration and every crash point k: interrupt, pickle, restore; restored == original, equal canonical universes, identical continuation (packet streams, universes, specification) to the end and through further interruption points; interrupted-then-resumed equals uninterrupted with the same check point; final specification passes C01/C02. Hosts the reduction-conformance run of the clock (one leap at every time() call).",
+        text="For every configuration and every crash point k: interrupt, pickle, restore; restored == original, equal canonical universes, identical continuation (packet streams, universes, specification) to the end and through further interruption points; interrupted-then-resumed equals uninterrupted with the same check point; final specification passes C01/C02. Hosts the reduction-conformance run of the clock (one leap at every time() call). For a sub-family the time limit also expires just before every single time() call of the run (any call site) and the search is resumed.",
         note="horizon of 30 (60) work packets per configuration"),
     "C18": dict(category="exploration", design="4/C18",
         technique="bounded-exhaustive enumeration of serialisable artefacts of the corpus",
@@ -81,7 +81,7 @@ CLAIMS = {
         note=""),
     "C19": dict(category="exploration", design="4/C19",
         technique="bounded-exhaustive enumeration of specifications with verified classes under every rule database; expand_verified under the virtual clock",
-        text="For every start class x VerifyByPrefix(S) (all S of <= 2 prefixes of length <= 2, and nested verification where the offered pack verifies a deeper class) x variants x rule databases: expand_verified() result passes C01/C02, has no expandable verified class left, shares no rule of the specification with the original when something was expanded; the original is unchanged and still counts correctly.",
+        text="For every start class x VerifyByPrefix(S) (all S of <= 2 prefixes of length <= 2, and nested verification where the offered pack verifies a deeper class) x variants x rule databases: expand_verified() result passes C01/C02, has no expandable verified class left, shares no rule of the specification with the original when something was expanded; the original is unchanged and still counts correctly. Includes verified classes that can only be expanded through the retry with reverse rules, also under an original specification that already contains a reverse rule (parse-tree domain).",
         note="the reverse-retry branch of expand_verified is not reached by the W-domain packs (stated in DESIGN limits)"),
     "C20": dict(category="exploration", design="4/C20",
         technique="bounded-exhaustive enumeration of equations of corpus specifications; oracle: true series by plain enumeration substituted positionally, coefficient comparison up to degree M; Taylor expansion of closed forms to order 12",
